@@ -1392,6 +1392,10 @@ class Process(StateMachine, persistence.Savable, metaclass=ProcessStateMachineMe
                 # that raised): the terminal state is final, there is nothing left to transition to
                 return
 
+            if next_state is not None and next_state.LABEL == process_states.ProcessState.EXCEPTED:
+                # The step function raised: that outcome is not to be swallowed by a pending kill (or pause)
+                self._set_interrupt_action(None)
+
             if self._interrupt_action:
                 # Detach the action so that a request made while it runs does not cancel it under its feet
                 action, self._interrupt_action = self._interrupt_action, None
